@@ -269,10 +269,14 @@ def ruleValue (x : Env) (r : Rule) (kind : Kind) (items : List Item) : SRes (Opt
           if is.any (fun i => match i with | .val .. => true | _ => false) then .skip "c03"
           else .ok 0 (some (.val (.prim (.str (String.join (is.map x.raw)))) .abstract))
 
-def sepItem (s : Sep) (pos len : Nat) : Item := .tok "sep" s.isRe s.tok s.text pos len
+/-- marks the token items contributed by separator modifiers; not a possible rule name, so a
+grammar rule called `sep` is an ordinary rule -/
+def sepMark : String := "\x00sep"
+
+def sepItem (s : Sep) (pos len : Nat) : Item := .tok sepMark s.isRe s.tok s.text pos len
 
 def isSep : Item → Bool
-  | .tok "sep" .. => true
+  | .tok rule .. => rule == sepMark
   | _ => false
 
 mutual
